@@ -12,5 +12,5 @@ CONSTANTS
   M_NoExists = FALSE
 CONSTRAINT ObsBound
 INVARIANTS TypeOK DeletedHasNoStorage NotIndexedOnceDeleted ChildrenFollowDone MirrorSound LoggedTombstoned NoOverDelete LiveStored
-PROPERTIES StatusMonotone NoStorageReappears AttemptsFail NeverReAdded ChildrenFollowLate SurvivesRestart DeletedIdsGrowOnly
+PROPERTIES StatusMonotone NoStorageReappears AttemptsFail NeverReAdded ChildrenFollowLate SurvivesRestart DeletedIdsGrowOnly KidsHandled
 CHECK_DEADLOCK FALSE
